@@ -12,7 +12,7 @@ def main(tier):
         trust=('the representation invariant wf(geo) of DESIGN 3/C10 evaluated on the executor heap: identity clauses on the concrete object graph, area / orientation / layer-count clauses proved by z3 under the path condition',
                'pyvc heap model of mulgrid / node / column / connection / layer objects built by the real constructors', 'z3 / sympy for the shared template and index obligations'),
         assume=('contract requires wf(geo): the start geometry is mulgrid.rectangular() (run by the executor, its wf proved first) of 2x2x2, 2x2x3, 3x2x2 or 3x1x2 blocks with symbolic spacings, elevation origin and column surfaces',
-                'one operation per obligation program (23 operation instances); longer histories, the irregular meshes, rotate / fit_surface (trigonometry, least squares) and file round trips are bounded',),
+                'one operation per obligation program (31 instances) and 6 (thorough 11) two-operation sequences; longer histories, the irregular meshes, rotate / fit_surface (trigonometry, least squares) and file round trips are bounded',),
         extra=[(c11, [('p_num_layers', None), ('p_index', None), ('o_templates', None), ('p_transition_type', 3), ('p_transition_type', 4)])],
         explanation='clause -> evidence: requires wf(geo) ensures wf(geo\') PROVED clause group by clause group on the real delete_column / rename_column (single, swap) / rename_layer / refine (all, subset, bisect, bisect x) / refine_layers / decompose_columns / reduce / translate / snap_columns_to_layers / snap_columns_to_nearest_layers for every spacing and surface; split_column, delete_column, delete_layer, delete_connection and refine beside a boundary fail the clause groups recorded as known findings (the obligations reproduce them). The cyclic index helpers are modular arithmetic; the refinement templates conserve area and are conforming; transition_type is total and consistent with the templates (PROVED, shared with C11). '
                     'Well-formedness of the geometry after every enumerated / random edit sequence, validity of the mesh after the operations that promise one, file round trip: BOUNDED. 10 known findings.',
